@@ -1,5 +1,6 @@
 import ChemProofs.Drv.C12
 import ChemProofs.Drv.Comp
+import ChemProofs.Drv.Peaks
 /- Model driver: `driver <mode>` reads op lines on stdin, prints one observation line per op. -/
 open Chem.Drv
 
@@ -17,6 +18,12 @@ def main (args : List String) : IO UInt32 := do
     return 0
   | ["comp"] => do
     loop (← IO.getStdin) runCompCase
+    return 0
+  | ["peaks"] => do
+    loop (← IO.getStdin) runPeaksCase
+    return 0
+  | ["poisson"] => do
+    loop (← IO.getStdin) runPoissonCase
     return 0
   | _ => do
     IO.eprintln s!"driver: unknown mode {args}"
